@@ -233,6 +233,17 @@ fn main() {
             },
         };
         distinct.insert(text.clone());
+        // failed deserializations (truncated / damaged input) must fail cleanly and leave no state behind that
+        // changes a later round trip
+        if i % 2 == 0 && text.len() > 4 {
+            let cut: String = text.chars().take(r.below(text.chars().count())).collect();
+            let _ = ron::de::from_str::<Ctx>(&cut);
+            let damaged = text.replacen("Int(", "Int(x", 1).replacen("Float(", "Float(\"", 1).replacen("String(\"", "String(", 1);
+            let _ = ron::de::from_str::<Ctx>(&damaged);
+            let deep = format!("(variables:{{\"t\":{}Int(1){}", "Tuple([".repeat(3), "])".repeat(2));
+            let _ = ron::de::from_str::<Ctx>(&deep);
+            evals += 3;
+        }
         let back: Ctx = match ron::de::from_str(&text) {
             Ok(b) => b,
             Err(e) => {
